@@ -227,16 +227,17 @@ Theorem C05_btime_invariance :
     children_rec as_is fuel t gone o = children_rec as_is fuel t gone o' /\
     parent as_is t gone cache o = parent as_is t gone cache o' /\
     parents as_is fuel t gone goneb cache o = parents as_is fuel t gone goneb cache o'.
-Proof. exact (btime_invariance as_is eq_refl). Qed.
+Proof. exact (btime_invariance as_is eq_refl eq_refl). Qed.
 Print Assumptions C05_btime_invariance.
 
-(* ... in fact under any content of the caller's create_time() cache *)
-Theorem C05_ctime_cache_irrelevant : forall t gone goneb cache fuel o c,
+(* ... in fact under any content of the caller's create_time() cache (identity known: any
+   start tick, 0 included) *)
+Theorem C05_ctime_cache_irrelevant : forall t gone goneb cache fuel o c, o_known o = true ->
   children_direct as_is t gone (set_ctime o c) = children_direct as_is t gone o /\
   children_rec as_is fuel t gone (set_ctime o c) = children_rec as_is fuel t gone o /\
   parent as_is t gone cache (set_ctime o c) = parent as_is t gone cache o /\
   parents as_is fuel t gone goneb cache (set_ctime o c) = parents as_is fuel t gone goneb cache o.
-Proof. exact (clock_invariance as_is eq_refl). Qed.
+Proof. exact (clock_invariance as_is eq_refl eq_refl). Qed.
 Print Assumptions C05_ctime_cache_irrelevant.
 
 (* fixed (e49a6c9); before the repair: create_time() cached, clock stepped by +100 s,
@@ -250,3 +251,45 @@ Theorem C05_clock_refuted :
     children_direct as_is t [] o = Val [9] /\ parent as_is t [] None o = Val (Some (1, 100)).
 Proof. exact clock_refuted. Qed.
 Print Assumptions C05_clock_refuted.
+
+(* ---------------------------------------------------------------- start tick 0
+   self._ident[1] is modelled as an option ([ident_opt]: Some ticks | None = could not be read
+   when the object was created); the code tests "is not None", so tick 0 is a value. *)
+
+(* a caller whose identity is start tick 0 (init, kthreadd, PID 1 / 2 of a container) obeys
+   exactly the statements above, whatever its create_time() cache holds *)
+Theorem C05_tick0_statements : forall t gone goneb cache o,
+  wf_table t = true -> live_b t o = true -> cache_fresh_b t cache = true -> o_ident o = 0 ->
+  children_direct as_is t gone o = Val (spec_children t gone (o_pid o) 0) /\
+  (exists l, children_rec as_is (S (length t)) t gone o = Val (Some l) /\ NoDup l /\
+             forall q, In q l <-> (desc t gone (o_pid o) 0 q /\ q <> o_pid o)) /\
+  parent as_is t gone cache o = Val (spec_parent_v t gone (o_pid o) 0) /\
+  (exists l, parents as_is (S (length t)) t gone goneb cache o = Val (Some l)) /\
+  forall c, children_direct as_is t gone (set_ctime o c) = children_direct as_is t gone o /\
+            parent as_is t gone cache (set_ctime o c) = parent as_is t gone cache o.
+Proof. exact tick0_statements. Qed.
+Print Assumptions C05_tick0_statements.
+
+(* an UNKNOWN identity is something else: once the PID is readable, the object is taken for a
+   stale one and every call raises NoSuchProcess *)
+Theorem C05_unknown_identity_raises : forall t gone goneb cache fuel o e,
+  o_known o = false -> lookup t (o_pid o) = Some e ->
+  children_direct as_is t gone o = Exc NoSuchProcess /\
+  children_rec as_is fuel t gone o = Exc NoSuchProcess /\
+  parent as_is t gone cache o = Exc NoSuchProcess /\
+  parents as_is fuel t gone goneb cache o = Exc NoSuchProcess.
+Proof. exact unknown_identity_raises. Qed.
+Print Assumptions C05_unknown_identity_raises.
+
+(* what a truthiness test on _ident[1] would do (NOT the code, [ident_falsy_variant]): the caller 2
+   at tick 0 falls back to create_time() on both sides; after a cached create_time(), a clock
+   step and a boot_time() refresh its children are dropped / its parent is None *)
+Theorem C05_ident_falsy_refuted :
+  let back := clock_obj 2 0 k1500 [CallCreateTime; SetBtime 149999990000; CallBootTime] in
+  let fwd := clock_obj 2 0 k1500 [CallCreateTime; SetBtime 150000010000; CallBootTime] in
+  wf_table t0tab = true /\ live_b t0tab back = true /\ live_b t0tab fwd = true /\
+  children_direct as_is t0tab [] back = Val [5; 7] /\ children_direct ident_falsy_variant t0tab [] back = Val [] /\
+  parent as_is t0tab [] None fwd = Val (Some (1, 0)) /\ parent ident_falsy_variant t0tab [] None fwd = Val None /\
+  parents as_is 5 t0tab [] [] None fwd = Val (Some [1]) /\ parents ident_falsy_variant 5 t0tab [] [] None fwd = Val (Some []).
+Proof. exact ident_falsy_refuted. Qed.
+Print Assumptions C05_ident_falsy_refuted.
